@@ -887,3 +887,149 @@ func ruleC12TimeoutAgree(c *Ctx) {
 		}
 	}
 }
+
+const textC11Unlink = "R-C11-unlink-all: before a waiter's wake signal is sent, the waiter is unlinked from the queue of every key it waits on (a call, dominating the send, of the function that loops until the signal's list of registrations is empty): a stale registration under another key would swallow a later push's wake-up while the real oldest waiter of that key sleeps on"
+
+func ruleC11UnlinkAll(c *Ctx) {
+	c.S.Rule("R-C11-unlink-all", textC11Unlink, 1)
+	a := c.blocking()
+	if len(a.errs) > 0 {
+		c.S.Undecided("R-C11-unlink-all", "anchors", "-", strings.Join(a.errs, "; "))
+		return
+	}
+	fHead := c.Field("wakeSignal", "objectsHead")
+	if fHead == nil {
+		c.S.Undecided("R-C11-unlink-all", "anchor", "-", "wakeSignal.objectsHead not found")
+		return
+	}
+	// full-unlink functions: a *wakeSignal parameter whose objectsHead is tested against nil in a loop condition
+	full := map[*ssa.Function]int{}
+	for _, fn := range c.SrcFuncs() {
+		for pi, p := range fn.Params {
+			if !c.isPkgType(p.Type(), "wakeSignal") {
+				continue
+			}
+			for _, b := range fn.Blocks {
+				ifi, ok := b.Instrs[len(b.Instrs)-1].(*ssa.If)
+				if !ok || !blockInCycle(b) {
+					continue
+				}
+				bo, ok := ifi.Cond.(*ssa.BinOp)
+				if !ok || (bo.Op != token.NEQ && bo.Op != token.EQL) {
+					continue
+				}
+				for _, v := range []ssa.Value{bo.X, bo.Y} {
+					if base, f := loadedField(v); f == fHead && base == ssa.Value(p) {
+						full[fn] = pi
+					}
+				}
+			}
+		}
+	}
+	if len(full) == 0 {
+		c.S.Undecided("R-C11-unlink-all", "full-unlink", "-", "no function loops until a wake signal's registration list is empty")
+		return
+	}
+	n := 0
+	for _, fn := range c.SrcFuncs() {
+		k := 0
+		for _, in := range instrsOf(fn) {
+			snd, ok := in.(*ssa.Send)
+			if !ok {
+				continue
+			}
+			sig, f := loadedField(snd.Chan)
+			if f != a.fReady {
+				continue
+			}
+			k++
+			n++
+			key := fmt.Sprintf("%s:wake#%d", fnName(fn), k)
+			okUnlink := false
+			for _, in2 := range instrsOf(fn) {
+				call, ok := in2.(*ssa.Call)
+				if !ok {
+					continue
+				}
+				g := call.Call.StaticCallee()
+				pi, isFull := full[g]
+				if !isFull || pi >= len(call.Call.Args) {
+					continue
+				}
+				if call.Call.Args[pi] == sig && instrDominates(in2, in) {
+					okUnlink = true
+				}
+			}
+			if okUnlink {
+				c.S.OK("R-C11-unlink-all", key, c.Pos(snd.Pos()), "the signal is unlinked from all its queues before it is sent")
+			} else {
+				c.S.Bad("R-C11-unlink-all", key, c.Pos(snd.Pos()), fmt.Sprintf("%s sends a wake signal on a path on which the waiter was not unlinked from all the queues it is registered in: its stale entry under another key takes the wake-up of a later push and the oldest real waiter of that key stays blocked", fnName(fn)))
+			}
+		}
+	}
+	if n == 0 {
+		c.S.Undecided("R-C11-unlink-all", "sends", "-", "no send on wakeSignal.ready found")
+	}
+}
+
+const textC12Mailbox = "R-C12-mailbox: an unblock request is posted to a connection's mailbox only while that connection is captured in a blocking wait: the send lies on the true side of one equality test of the connection's blocking state (read atomically) with a constant — never for an idle connection, where the posted item would end the connection's NEXT blocking command at once"
+
+func ruleC12Mailbox(c *Ctx) {
+	c.S.Rule("R-C12-mailbox", textC12Mailbox, 1)
+	fCh := c.Field("clientState", "unblockCh")
+	fBlocked := c.Field("clientState", "blocked")
+	if fCh == nil || fBlocked == nil {
+		c.S.Undecided("R-C12-mailbox", "anchors", "-", "clientState.unblockCh / blocked not found")
+		return
+	}
+	fromState := func(v ssa.Value) bool {
+		call, ok := v.(*ssa.Call)
+		if !ok || !strings.HasPrefix(fullCalleeName(call), "sync/atomic.") || len(call.Call.Args) == 0 {
+			return false
+		}
+		fa, ok := call.Call.Args[0].(*ssa.FieldAddr)
+		return ok && fieldOf(fa) == fBlocked
+	}
+	n := 0
+	for _, fn := range c.SrcFuncs() {
+		k := 0
+		for _, in := range instrsOf(fn) {
+			snd, ok := in.(*ssa.Send)
+			if !ok {
+				continue
+			}
+			if _, f := loadedField(snd.Chan); f != fCh {
+				continue
+			}
+			k++
+			n++
+			key := fmt.Sprintf("%s:post#%d", fnName(fn), k)
+			guarded := false
+			for _, b := range fn.Blocks {
+				ifi, ok := b.Instrs[len(b.Instrs)-1].(*ssa.If)
+				if !ok {
+					continue
+				}
+				bo, ok := ifi.Cond.(*ssa.BinOp)
+				if !ok || bo.Op != token.EQL {
+					continue
+				}
+				if _, isC := bo.Y.(*ssa.Const); !isC || !fromState(bo.X) {
+					continue
+				}
+				s := b.Succs[0]
+				if len(s.Preds) == 1 && (s == snd.Block() || s.Dominates(snd.Block())) {
+					guarded = true
+				}
+			}
+			if guarded {
+				c.S.OK("R-C12-mailbox", key, c.Pos(snd.Pos()), "posted only in the captured state")
+			} else {
+				c.S.Bad("R-C12-mailbox", key, c.Pos(snd.Pos()), fmt.Sprintf("%s can post an unblock request to a connection that is not captured in a blocking wait: the item stays in the mailbox and ends that connection's next blocking command immediately", fnName(fn)))
+			}
+		}
+	}
+	if n == 0 {
+		c.S.Undecided("R-C12-mailbox", "sends", "-", "no send on clientState.unblockCh found")
+	}
+}
